@@ -100,10 +100,15 @@ def shard(i, n, tier, seed):
     mine = cs[i::n]
     with lib.Functions() as fns:
         for c in mine[:12]:
-            run_case(col, c)
+            if c['semiring'] in ('viterbi', 'bool'):
+                run_case(col, c)
     col.functions |= fns.names
-    for c in mine[12:]:
-        run_case(col, c)
+    for k, c in enumerate(mine):
+        if c['semiring'] in ('viterbi', 'bool'):
+            if k >= 12:
+                run_case(col, c)
+        else:   # nonlinear real arithmetic: hard per-case limit
+            lib.guarded(lambda cc, c=c: run_case(cc, c), col, 120, f"{c['semiring']}/{c['method']}")
     return col.result(symx.STATS)
 
 
@@ -112,7 +117,7 @@ def main():
     if a.replay:
         common.do_replay(PID, a.replay)
     t0 = time.time()
-    merged = lib.merge(lib.run_sharded('c01', 'shard', a.tier, a.seed))
+    merged = lib.merge(lib.run_pool('c01', a.tier, a.seed))
     code = lib.finish(
         PID, a.tier, a.seed, 'other', merged, t0,
         rule='case = (non-recursive grammar, semiring, method name, dtype, requires_grad). Grammars: the single-rule family (<=2 nodes over labels T(2),U(1|3), <=2 terminal edges of arity 0-2 with any attachment '
